@@ -32,7 +32,7 @@ class Gen:
         self.r = random.Random(seed)
         self.w = w
         self.feat = dict(arrays=True, strings=True, funcs=True, globals=True, loops=True, faults=0.0,
-                         bools=True, bytes=True, recursion=True, depth=3, stmts=6, timetravel=False)
+                         bools=True, bytes=True, recursion=True, depth=3, stmts=6, tt=0.0)
         if feat:
             self.feat.update(feat)
         self.n = 0
@@ -40,6 +40,7 @@ class Gen:
         self.globals = []
         self.scopes = []
         self.in_loop = 0
+        self.ctx = 'plain'     # 'plain' ordinary function / `??` operand, 'you', 'try' (try body), 'defeat' (defeat function)
         self.max_int = (1 << (8 * w - 1)) - 1
 
     # ------------------------------------------------------------------ names / scopes
@@ -118,7 +119,7 @@ class Gen:
         return '%s[%s]' % (a.name, self.safe_index(a, d))
 
     def call_of(self, ret, d):
-        fs = [f for f in self.funcs if f.ret == ret and f.flavor == '' and f is not getattr(self, 'cur_func', None)]
+        fs = [f for f in self.funcs if f.ret == ret and f.flavor in self.flavors() and f is not getattr(self, 'cur_func', None)]
         if not fs or d <= 0:
             return None
         f = self.r.choice(fs)
@@ -129,6 +130,15 @@ class Gen:
                 return None
             args.append(a)
         return '%s(%s)' % (f.name, ', '.join(args))
+
+    def flavors(self):
+        """flavours of user functions that may be called in the current context (README: you-functions only directly
+        within you-functions and not in try bodies; defeat functions only in try bodies and defeat functions)"""
+        if self.ctx == 'you':
+            return ('', '@')
+        if self.ctx in ('try', 'defeat'):
+            return ('', '!')
+        return ('',)
 
     def arg_for(self, pv, d):
         if pv.arr:
@@ -159,6 +169,8 @@ class Gen:
                 return '(%s %s %s)' % (self.int_operand(d - 1), op, k if k > 0 else '(%d)' % k)
             return '(%s %s ((%s %% 5 + 5) %% 5 + 1))' % (self.int_operand(d - 1), op, self.int_operand(d - 1))
         if c < 0.58:
+            if r.random() < 0.25:
+                return '(+%s)' % self.int_operand(d - 1)
             return '(-%s)' % self.int_operand(d - 1)
         if c < 0.66 and self.feat['bools']:
             return '(%s is int)' % self.bool_expr(d - 1)
@@ -171,6 +183,8 @@ class Gen:
             if arrs:
                 return '%s.length' % r.choice(arrs).name
         if c < 0.84 and self.feat['strings']:
+            if r.random() < 0.4:
+                return '%s.length' % self.str_expr(d - 1)
             s = self.pick_var(STRING)
             if s:
                 return '%s.length' % s
@@ -405,6 +419,15 @@ class Gen:
         c = r.random()
         if d <= 0:
             return r.choice([self.write_stmt, self.assign_stmt])(1)
+        tt = self.feat['tt']
+        if tt and self.ctx == 'you':
+            x = r.random()
+            if x < tt * 0.45:
+                return self.try_stmt(d)
+            if x < tt * 0.6:
+                return self.spec_stmt(d)
+        if tt and self.ctx in ('try', 'defeat') and r.random() < tt * 0.4:
+            return self.defeat_stmt(d)
         if c < 0.22:
             return self.write_stmt(d)
         if c < 0.40:
@@ -423,13 +446,82 @@ class Gen:
         if c < 0.95 and self.in_loop:
             return 'if (%s) { %s; }' % (self.bool_expr(1), r.choice(['break', 'continue']))
         if self.feat['funcs']:
-            fs = [f for f in self.funcs if f.flavor == '' and f.ret == 'empty' and f is not getattr(self, 'cur_func', None)]
+            fs = [f for f in self.funcs if f.flavor in self.flavors() and f.ret == 'empty' and f is not getattr(self, 'cur_func', None)]
             if fs:
                 f = r.choice(fs)
                 args = [self.arg_for(pv, d - 1) for _, pv in f.params]
                 if all(a is not None for a in args):
                     return '%s(%s);' % (f.name, ', '.join(args))
         return self.write_stmt(d)
+
+    # ------------------------------------------------------------------ time travel
+    def try_stmt(self, d):
+        r = self.r
+        kind = r.choice(['undo', 'stop'])
+        old = self.ctx
+        self.ctx = 'try'
+        self.scopes.append([])
+        n, at = r.randrange(0, 3), r.randrange(0, 3)
+        body = []
+        for k in range(n + 1):
+            if k == min(at, n):
+                body.append(self.defeat_stmt(d - 1))
+            if k < n:
+                body.append(self.stmt(d - 1))
+        if r.random() < 0.5:
+            body.append(self.write_stmt(1))
+        self.scopes.pop()
+        self.ctx = old
+        handler = self.block(d - 1, n=r.randrange(0, 3))
+        return 'try { %s } %s %s' % (' '.join(body), kind, handler)
+
+    def defeat_stmt(self, d):
+        """a statement that may lead to defeat (try body or defeat function)"""
+        r = self.r
+        c = r.random()
+        dfs = [f for f in self.funcs if f.flavor == '!' and f is not getattr(self, 'cur_func', None)]
+        if c < 0.10:
+            return 'if (%s) { !is_defeat(); }' % self.bool_expr(1)
+        if c < 0.38 and dfs:
+            f = r.choice(dfs)
+            args = [self.arg_for(pv, max(d - 1, 0)) for _, pv in f.params]
+            if all(a is not None for a in args):
+                call = '%s(%s)' % (f.name, ', '.join(args))
+                if f.ret == 'empty':
+                    return call + ';'
+                if f.ret == STRING:
+                    return 'write(%s);' % call
+                return 'write(%s); write(\' \');' % call
+        if c < (0.46 if self.ctx == 'defeat' else 0.58) and d > 0:
+            return 'preempt %s' % self.block(d - 1)
+        return '!truth_is_defeat(%s);' % self.bool_expr(max(d - 1, 1))
+
+    def spec_stmt(self, d):
+        """speculation `a ?? b` at a full-expression position of a you-function; operands are ordinary expressions"""
+        r = self.r
+        old = self.ctx
+        self.ctx = 'plain'
+        t = r.choice([INT, INT, BYTE, BOOL]) if self.feat['bytes'] and self.feat['bools'] else INT
+        a, b = self.expr(t, d - 1), self.expr(t, d - 1)
+        if t == INT:     # the right operand is coerced to the type of the left one: make sure the left one is an int
+            v = self.pick_var(INT)
+            a = self.call_of(INT, d) or ('(%s %s %s)' % (self.int_operand(d - 1), r.choice(['+', '-', '*']), self.int_operand(d - 1))
+                                         if r.random() < 0.6 or not v else v)
+        if t == BYTE and a.lstrip('-').isdigit():
+            a = '(%s is byte)' % a
+        self.ctx = old
+        c = r.random()
+        if c < 0.4:
+            name = self.fresh()
+            self.declare(Var(name, t))
+            return '%s %s = %s ?? %s;' % (t, name, a, b)
+        if c < 0.6:
+            vs = self.vars(lambda v: not v.arr and not v.const and v.type == t)
+            if vs:
+                return '%s = %s ?? %s;' % (r.choice(vs).name, a, b)
+        if t == BYTE:
+            return 'write((%s ?? %s) is int); write(\' \');' % (a, b)
+        return 'write(%s ?? %s); write(\' \');' % (a, b)
 
     def loop_stmt(self, d):
         r = self.r
@@ -465,14 +557,17 @@ class Gen:
         return ('int %s(int %s, int %s) { if (%s <= 0 or %s > 3) { return %s; } %s int up = %s(%s - 1, %s + %s); %s return up + %s; }'
                 % (name, d.name, acc.name, d.name, d.name, acc.name, pre, name, d.name, acc.name, step, post, d.name))
 
-    def function(self, idx):
+    def function(self, idx, flavor=''):
         r = self.r
-        if self.feat['recursion'] and r.random() < 0.25:
+        if not flavor and self.feat['recursion'] and r.random() < 0.25:
             return self.recursive_function()
         ret = r.choice([INT, INT, BOOL, BYTE, 'empty', STRING])
         if ret == STRING and not self.feat['strings']:
             ret = INT
         name = r.choice(['f', 'g', 'h']) if r.random() < 0.5 else self.fresh('fn')
+        if flavor and ret == STRING and r.random() < 0.5:
+            ret = 'empty'
+        name = flavor + name
         params = []
         self.scopes.append([])
         sig = []
@@ -493,12 +588,21 @@ class Gen:
             self.declare(pv)
         # overloads must differ in parameter types
         if any(f.name == name and [p[0] for p in f.params] == sig for f in self.funcs):
-            name = self.fresh('fn')
-        f = Func(name, ret, params)
+            name = flavor + self.fresh('fn')
+        f = Func(name, ret, params, flavor)
         self.cur_func = f
-        body = [self.stmt(self.feat['depth'] - 1) for _ in range(r.randrange(1, 4))]
+        self.ctx = {'': 'plain', '!': 'defeat', '@': 'you'}[flavor]
+        n = r.randrange(1, 4)
+        at = r.randrange(0, n + 1) if flavor == '!' and r.random() < 0.7 else -1
+        body = []
+        for k in range(n + 1):
+            if k == at:
+                body.append(self.defeat_stmt(1))
+            if k < n:
+                body.append(self.stmt(self.feat['depth'] - 1))
         if ret != 'empty':
             body.append('return %s;' % self.expr(ret, 2))
+        self.ctx = 'plain'
         self.cur_func = None
         self.scopes.pop()
         self.funcs.append(f)
@@ -543,6 +647,11 @@ class Gen:
         if self.feat['funcs']:
             for i in range(r.randrange(0, 4)):
                 parts.append(self.function(i))
+        if self.feat['tt']:
+            for i in range(r.randrange(0, 3)):
+                parts.append(self.function(i, '!'))
+            for i in range(r.randrange(0, 2)):
+                parts.append(self.function(i, '@'))
         # entry point
         params = []
         self.scopes.append([])
@@ -576,7 +685,9 @@ class Gen:
                 self.declare(Var(n, 'arr', const=True, arr=True, el=STRING, length=None))
                 ptxt.append('const string[] ' + n)
                 inputs.append('string[]')
+        self.ctx = 'you'
         body = [self.stmt(self.feat['depth']) for _ in range(r.randrange(2, self.feat['stmts'] + 1))]
+        self.ctx = 'plain'
         # make array parameters observable
         for v in self.scopes[-1]:
             if v.arr and v.el == INT:
